@@ -44,6 +44,10 @@ func (c01core) Gen(rng *rand.Rand, tier string) []Case {
 }
 
 func (c01core) Run(c Case) Result {
+	return pcGuard("C01:total", func() Result { return c01coreRun(c) })
+}
+
+func c01coreRun(c Case) Result {
 	var res Result
 	pc, err := pcParseCase(c)
 	if err != nil {
